@@ -133,11 +133,27 @@ def witness_cases():
         {"op": "hbatch", "ds": "a", "ents": [sc.with_id("e1", R9), sc.with_id("e2", A)]},
         {"op": "hbatch", "ds": "a", "ents": [sc.with_id("e1", R9), sc.with_id("e2", B)], "ctx": "http://w/"},
         {"op": "hbatch", "ds": "a", "ents": [sc.with_id("e1", R9), sc.with_id("e2", B)]}] + fin_reads(1, ["e1", "e2"]) + [{"op": "hentities", "ds": "a", "limits": [0], "ld": True}, {"op": "get", "id": "http://w/e1", "datasets": ["a"], "merge": True}]}
+    # ids whose local part contains '/' behind a '#' expansion, and ids that are prefixes of each other: the full-URI lookup
+    # must split the URI where the write path (the stream parser) split it
+    H = "http://v/ns#"
+    slashid = {"datasets": ["a", "b"], "ops": [
+        {"op": "hbatch", "ds": "a", "ents": [sc.with_id("x/e1", A), sc.with_id("x/e1/y", B), sc.with_id("e1", C)], "ctx": H},
+        {"op": "hbatch", "ds": "b", "ents": [sc.with_id("x/e1", B)], "ctx": H},
+        {"op": "hbatch", "ds": "a", "ents": [sc.with_id("x/e1", D)], "ctx": H},
+        {"op": "hbatch", "ds": "a", "ents": [sc.with_id("x/e1", A)], "ctx": H},
+        {"op": "hbatch", "ds": "b", "ents": [dict(sc.with_id("x/e1", C), recorded=5), dict(sc.with_id("e7", R1), recorded=7)], "ctx": H},
+        {"op": "rawkeys"},
+        {"op": "hentities", "ds": "a", "limits": [0]}, {"op": "hentities", "ds": "b", "limits": [1]}]
+        + [o for i in ("x/e1", "x/e1/y", "e1") for o in (
+            {"op": "get", "id": H + i, "datasets": ["a"], "merge": True},
+            {"op": "get", "id": H + i, "datasets": [], "merge": True},
+            {"op": "hquery", "id": H + i, "datasets": ["a"], "merge": False},
+            {"op": "jsfind", "id": H + i, "datasets": []})]}
     # every engineered (old, new) pair: the new version must be what listing and lookup show
     pairs = [{"datasets": ["a"], "ops": [{"op": "batch", "ds": "a", "ents": [sc.with_id("e1", o_)]},
                                          {"op": "batch", "ds": "a", "ents": [sc.with_id("e1", n_)]}] + fin_reads(1, ["e1"])}
              for o_, n_ in sc.ENGINEERED[1:]]
-    return pairs + [twoctx, hrefused, race, txnrace, merged, big, nullprop, http, proxy, stale, refused, longbatch, tokens, shared,
+    return pairs + [twoctx, slashid, hrefused, race, txnrace, merged, big, nullprop, http, proxy, stale, refused, longbatch, tokens, shared,
         # two tombstones differing in one reference target only: two versions
         {"datasets": ["a"], "ops": [{"op": "batch", "ds": "a", "ents": [sc.with_id("e1", sc.TOMBPAIR[0])]},
                                     {"op": "batch", "ds": "a", "ents": [sc.with_id("e1", sc.TOMBPAIR[1])]}] + fin_reads(1, ["e1"])},
@@ -188,7 +204,13 @@ def gen_case(rng, nw):
             ops.append({"op": "hquery", "id": sc.NS + i, "datasets": [d] if rng.chance(1, 2) else [], "merge": rng.chance(1, 2)})
             ops.append({"op": "jsfind", "id": sc.NS + i, "datasets": [d] if rng.chance(1, 2) else []})
     ops += fin_reads(nds, pool, rng)
-    if rng.chance(1, 4):
+    recd = False
+    for o in ops:
+        # entities that carry a client-side "recorded" time (as a hub-to-hub sync posts them): the store stamps its own
+        if o["op"] in ("batch", "hbatch") and not o.get("reject") and rng.chance(1, 4):
+            o["ents"] = [dict(e, recorded=rng.choice([1, 5, 1234567])) for e in o["ents"]]
+            recd = True
+    if recd or rng.chance(1, 4):
         ops.append({"op": "rawkeys"})     # byte layout + iteration order of the real keys (Model/Keys.v)
     return {"datasets": sc.DS_NAMES[:nds], "ops": ops}
 
